@@ -38,6 +38,15 @@ def local_names(t, ev):
 NAMED_HELPERS = {"gcd", "lcm", "gamma", "lambert_w", "ilog"}
 
 
+def freshen(t, k):
+    """rename the generated variable names of an inlined body apart from the caller's (b3 -> b3003, ...)"""
+    if isinstance(t, tuple):
+        if len(t) >= 2 and t[0] in ("var", "bind", "let", "bind@") and isinstance(t[1], str) and re.match(r"^[bmvh]\d+$", t[1]):
+            return (t[0], "%s%d" % (t[1][0], int(t[1][1:]) + 1000 * k)) + tuple(freshen(x, k) for x in t[2:])
+        return tuple(freshen(x, k) for x in t)
+    return t
+
+
 class EvTables:
     def __init__(self, F, ev):
         self.F = F
@@ -74,7 +83,37 @@ class EvTables:
 
     # ---- eval arms --------------------------------------------------------
     def eval_fn(self):
-        return self.fn("::ast::eval")
+        """the tree-walk function: `ast::eval`, or the function it merely forwards its argument to
+        (`pub fn eval(e: Node) { eval_ref(&e) }`)"""
+        if "walker" in self._cache:
+            return self._cache["walker"]
+        f = self.fn("::ast::eval")
+        names = ()
+        if f is not None and f.thir:
+            names = (f.path,)
+            for _ in range(2):
+                body = T.body_of(f)
+                pid = T.param_ids(f)[0][0]
+                if T.find_match_on(body, lambda s: T.strip_wrappers(s).get("k") == "var" and T.strip_wrappers(s).get("id") == pid) is not None:
+                    break
+                t = T.strip_tail_returns(T.normalise(self.TR.term(body, T.Ctx())))
+                pn = T.param_ids(f)[0][1]
+                g = None
+                if isinstance(t, tuple) and len(t) == 3 and t[0] == "call" and t[2] in (("var", pn), ("param", pn)):
+                    g = self.F.by_key.get(t[1])
+                if g is None or not g.thir or g.evaluator != self.ev:
+                    break
+                f = g
+                names = names + (g.path,)
+        self._cache["walker"] = f
+        self._cache["walker_names"] = names
+        return f
+
+    def eval_names(self):
+        """paths of the entry `eval` and the walker it forwards to: a `?`-propagated call of either is `(ev x)`"""
+        self.eval_fn()
+        n = self._cache.get("walker_names", ())
+        return n if len(n) != 1 else n[0]
 
     def eval_arms(self):
         """dict ctor-name -> normalised term of the arm (children are C0, C1; eval(child)? is (ev Ci))."""
@@ -93,7 +132,7 @@ class EvTables:
             return out
         self._cache["eval_match_is_tail"] = True
         for a in m["arms"]:
-            ctx = T.Ctx(eval_fn=f.path, inline_pure=True)
+            ctx = T.Ctx(eval_fn=self.eval_names(), inline_pure=True)
             binders = []
             p = T.pat_term(a["pat"], ctx, binders)
             for i, (vid, nm, orig) in enumerate(binders):
@@ -110,25 +149,77 @@ class EvTables:
         self._cache["eval_arms"] = out
         return out
 
-    def inline_helpers(self, t, depth=0):
-        """Inline calls to small, loop-free, non-recursive helper functions of the evaluator's ast module
-        (so that extracting an arm into a helper does not change its summary).  Big or looping helpers
-        (gamma, gcd, lcm, lambert_w, ilog) stay calls."""
-        if not isinstance(t, tuple) or depth > 3:
+    # ---- interprocedural inlining ------------------------------------------------
+    def resolve_local(self, name):
+        """crate-local function a (shortened or raw) call name refers to, or None"""
+        if not isinstance(name, str):
+            return None
+        if name.startswith("Ast."):
+            return self.fn("::ast::" + name[4:])
+        if name.startswith("Token."):
+            return self.fn("::token::Token::" + name[6:])
+        if name.startswith(("P.", "Lex.")):
+            return None
+        if name.startswith("utils."):
+            c = [f for k, f in self.F.by_key.items() if re.match(r"^utils::\w+::%s$" % re.escape(name[6:]), k) and f.kind != "Closure"]
+            return c[0] if len(c) == 1 else None
+        f = self.F.by_key.get(name)
+        if f is not None and f.kind != "Closure" and (f.evaluator == self.ev or f.key.startswith("utils::")):
+            return f
+        return None
+
+    def inline_helpers(self, t, depth=0, stack=()):
+        """Inline calls to non-recursive crate-local helper functions (free functions of the ast module or any
+        other module of the evaluator, inherent methods of its types, utils helpers), beta-reducing function
+        pointers and closures passed to them -- so that extracting code into a helper, or parameterising a helper
+        by the operation, does not change an arm's summary.  The evaluator itself and the helpers the rules know by
+        name (gcd, lcm, gamma, lambert_w, ilog) stay calls; `eval(x)?` inside a helper is the same `(ev x)`."""
+        if not isinstance(t, tuple) or depth > 6:
             return t
-        t = tuple(self.inline_helpers(x, depth) for x in t)
-        if len(t) >= 2 and t[0] == "call" and isinstance(t[1], str) and t[1].startswith("Ast.") and t[1] != "Ast.eval":
-            f = self.fn("::ast::" + t[1][4:])
-            if f is not None and f.kind != "Closure" and not f.derived and t[1][4:] not in NAMED_HELPERS:
-                body = self.fn_term(f, inline_pure=True)
+        t = tuple(self.inline_helpers(x, depth, stack) for x in t)
+        t = self.beta(t)
+        if len(t) >= 2 and t[0] == "call" and isinstance(t[1], str):
+            f = self.resolve_local(t[1])
+            ef = self.eval_fn()
+            if f is not None and not f.derived and f.thir and (ef is None or f.path not in self._cache.get("walker_names", ())) and f.short not in NAMED_HELPERS and f.path not in stack \
+                    and not f.j.get("impl_trait"):
+                body = self.fn_term(f, inline_pure=True, eval_fn=self.eval_names() if ef else None)
                 body = T.strip_tail_returns(body)
-                loops = any(isinstance(s_, tuple) and s_ and s_[0] in ("loop", "for") for s_ in subterms(body))
-                recursive = any(isinstance(s_, tuple) and len(s_) > 1 and s_[0] == "call" and s_[1] == t[1] for s_ in subterms(body))
                 params = [nm for (_, nm, _) in T.param_ids(f)]
-                if not loops and not recursive and T.term_size(body) <= 120 and len(params) == len(t) - 2 and all(params):
+                rets = [s_ for s_ in subterms(body) if isinstance(s_, tuple) and s_ and s_[0] == "return" and s_ != ("return", ("Err",))]
+                if not rets and T.term_size(body) <= 900 and len(params) == len(t) - 2 and all(params):
+                    self._fresh = getattr(self, "_fresh", 0) + 1
+                    body = freshen(body, self._fresh)
                     inl = T.subst_params(body, dict(zip(params, t[2:])))
-                    return self.inline_helpers(inl, depth + 1)
+                    return self.inline_helpers(T.normalise(inl), depth + 1, stack + (f.path,))
         return t
+
+    def beta(self, t):
+        """(f)(args) for a known f: function item, tuple-variant constructor or closure"""
+        if not isinstance(t, tuple) or not t:
+            return t
+        fn, args = None, None
+        if t[0] == "icall" and len(t) >= 2:
+            fn, args = t[1], t[2:]
+        elif t[0] == "call" and isinstance(t[1], str) and re.search(r"ops::Fn(Once|Mut)?>::call(_once|_mut)?$", t[1]) and len(t) == 4 and isinstance(t[3], tuple) and t[3][:1] == ("tuple",):
+            fn, args = t[2], t[3][1:]
+        if fn is None or not isinstance(fn, tuple):
+            return t
+        if fn[0] == "fnref" and isinstance(fn[1], str):
+            name = fn[1]
+            m_ = re.search(r"(?:^|[.:])(\w+::[A-Z]\w*)$", name)
+            if m_ and self.resolve_local(name) is None and m_.group(1).split("::")[0] in self._adt_names():
+                return ("ctor", m_.group(1)) + tuple(args)
+            return ("call", name) + tuple(args)
+        if fn[0] == "lambda" and len(fn) == 3 and len(fn[1]) == len(args) and all(isinstance(b_, tuple) and b_[0] == "bind" for b_ in fn[1]):
+            from .tables import subst_vars as _sv
+            return T.normalise(_sv(fn[2], {b_[1]: a_ for b_, a_ in zip(fn[1], args)}))
+        return t
+
+    def _adt_names(self):
+        if "adt_names" not in self._cache:
+            self._cache["adt_names"] = {a["path"].split("::")[-1] for a in self.F.doc["adts"]}
+        return self._cache["adt_names"]
 
     @staticmethod
     def arm_ctor_names(pat):
